@@ -113,8 +113,11 @@ func robustOne(rc *RunCtx) *Violation {
 		d, fired = deriveInput(rc, x, nil, allContentFaults)
 	}
 	filename := "in.txt"
-	if simrt.Choose(4) == 1 {
+	switch simrt.Choose(6) {
+	case 1:
 		filename = ""
+	case 2:
+		filename = fileNames[simrt.Choose(len(fileNames))]
 	}
 	// a documented tuning knob: the repetition limit (single task here, restored after the run)
 	if simrt.Choose(6) == 1 {
